@@ -53,17 +53,6 @@ Proof.
   intros H. destruct (split_at r l H) as (a & b & -> & <-). rewrite ins_at_app. apply nth_error_app_mid.
 Qed.
 
-Lemma StronglySorted_nth (R : A -> A -> Prop) l : StronglySorted R l ->
-  forall i j x y, i < j -> nth_error l i = Some x -> nth_error l j = Some y -> R x y.
-Proof.
-  induction 1 as [|x0 t Hs IH Hall]; intros i j x y Hij Hi Hj.
-  - destruct i; discriminate.
-  - destruct j as [|j]; [lia|]. destruct i as [|i].
-    + cbn in Hi, Hj. injection Hi as <-. rewrite Forall_forall in Hall. apply Hall.
-      eapply nth_error_In; eassumption.
-    + cbn in Hi, Hj. apply (IH i j); auto; lia.
-Qed.
-
 Lemma StronglySorted_app_inv (R : A -> A -> Prop) a b : StronglySorted R (a ++ b) ->
   StronglySorted R a /\ StronglySorted R b /\ forall x y, In x a -> In y b -> R x y.
 Proof.
@@ -187,9 +176,6 @@ Implicit Types (s : sorted T) (l : list T).
 (* what every reachable object satisfies *)
 Definition inv s : Prop := s_less s = Some less /\ Sorted (le_of less) (s_slice s).
 
-(* the predicate sort.Search is called with, on the elements *)
-Definition not_less_than (v x : T) : bool := negb (less x v).
-
 Lemma NewSorted_spec values :
   NewSorted zero sort_Stable values less = Ok (MkSorted (isort less values) (Some less)).
 Proof.
@@ -209,42 +195,16 @@ Proof.
   rewrite NewSorted_spec. intros [= <-]. split; [reflexivity|]. apply isort_sorted. exact W.
 Qed.
 
-Lemma partition_point_sorted_mono l : Sorted (le_of less) l -> forall v a b x y,
-  a <= b -> nth_error l a = Some x -> nth_error l b = Some y ->
-  not_less_than v x = true -> not_less_than v y = true.
-Proof.
-  intros Hs v a b x y Hab Ha Hb Hx. destruct (Nat.eq_dec a b) as [->|Hne]; [congruence|].
-  assert (Hxy : le_of less x y).
-  { apply (StronglySorted_nth _ l (sorted_strongly less W l Hs) a b); auto; lia. }
-  unfold not_less_than, le_of in *. apply negb_true_iff in Hx. apply negb_true_iff.
-  destruct (less y v) eqn:E; [|reflexivity]. destruct (swo_negtrans less W y x v E); congruence.
-Qed.
-
 Lemma search_spec s v : inv s ->
-  exists r, search s v = Ok (Z.of_nat r) /\ partition_point (not_less_than v) (s_slice s) r.
+  exists r, search s v = Ok (Z.of_nat r) /\ partition_point (not_less_than less v) (s_slice s) r.
 Proof.
-  intros [Hl Hs]. unfold search. rewrite Hl. set (l := s_slice s) in *.
-  set (g := fun k : Z => match nth_error l (Z.to_nat k) with Some x => not_less_than v x | None => true end).
-  destruct (sort_search_lower_bound
-              (fun i => do x <- getZ l i; Ok (negb (less x v))) g (lenZ l)) as (r & Er & Hr & H1 & H2).
-  - intros h Hh. unfold lenZ in Hh.
-    destruct (nth_error l (Z.to_nat h)) as [x|] eqn:Ex.
-    + replace h with (Z.of_nat (Z.to_nat h)) at 1 by lia. rewrite (getZ_ok _ _ _ Ex). unfold g. rewrite Ex. reflexivity.
-    + apply nth_error_None in Ex. lia.
-  - intros a b Hab Hb. unfold g, lenZ in *.
-    destruct (nth_error l (Z.to_nat a)) as [x|] eqn:Ea; [|apply nth_error_None in Ea; lia].
-    destruct (nth_error l (Z.to_nat b)) as [y|] eqn:Eb; [|reflexivity].
-    apply (partition_point_sorted_mono l Hs v (Z.to_nat a) (Z.to_nat b)); auto; lia.
-  - unfold lenZ. lia.
-  - exists (Z.to_nat r). rewrite Z2Nat.id by lia. split; [exact Er|]. unfold lenZ in Hr. repeat split.
-    + lia.
-    + intros k x Hk Hx. specialize (H1 (Z.of_nat k)). unfold g in H1. rewrite Nat2Z.id, Hx in H1. apply H1. lia.
-    + intros k x Hk Hx. assert (k < length l) by (apply nth_error_Some; congruence).
-      specialize (H2 (Z.of_nat k)). unfold g in H2. rewrite Nat2Z.id, Hx in H2. apply H2. unfold lenZ. lia.
+  intros [Hl Hs]. unfold search. rewrite Hl.
+  apply (search_list_spec (not_less_than less v) (s_slice s)).
+  intros i j x y. apply (not_less_than_mono less W _ Hs v).
 Qed.
 
 (* inserting at the partition point keeps the order *)
-Lemma ins_at_sorted l r v : Sorted (le_of less) l -> partition_point (not_less_than v) l r ->
+Lemma ins_at_sorted l r v : Sorted (le_of less) l -> partition_point (not_less_than less v) l r ->
   Sorted (le_of less) (ins_at r v l).
 Proof.
   intros Hs (Hr & Hlo & Hhi). apply StronglySorted_Sorted.
@@ -277,7 +237,7 @@ Qed.
 
 Lemma Add_spec s v : inv s ->
   exists r, Add s v = Ok (MkSorted (ins_at r v (s_slice s)) (Some less), Z.of_nat r) /\
-            partition_point (not_less_than v) (s_slice s) r.
+            partition_point (not_less_than less v) (s_slice s) r.
 Proof.
   intros Hinv. destruct (search_spec s v Hinv) as (r & Er & Hp). exists r. split; [|exact Hp].
   unfold Add. rewrite Er. cbn [bind]. destruct Hp as (Hr & _).
@@ -292,7 +252,7 @@ Definition index_at (r : nat) l (v : T) : Z :=
   end.
 
 Lemma Index_spec s v : inv s ->
-  exists r, Index eqb s v = Ok (index_at r (s_slice s) v) /\ partition_point (not_less_than v) (s_slice s) r.
+  exists r, Index eqb s v = Ok (index_at r (s_slice s) v) /\ partition_point (not_less_than less v) (s_slice s) r.
 Proof.
   intros Hinv. destruct (search_spec s v Hinv) as (r & Er & Hp). exists r. split; [|exact Hp].
   unfold Index, index_at, Len, lenZ. rewrite Er. cbn [bind].
@@ -316,7 +276,7 @@ Proof.
 Qed.
 
 Lemma Remove_spec s v : inv s ->
-  exists r, partition_point (not_less_than v) (s_slice s) r /\
+  exists r, partition_point (not_less_than less v) (s_slice s) r /\
    ((nth_error (s_slice s) r <> Some v /\ Index eqb s v = Ok (-1)%Z /\ Remove eqb s v = Ok (s, (-1)%Z)) \/
     (nth_error (s_slice s) r = Some v /\ Index eqb s v = Ok (Z.of_nat r) /\
      Remove eqb s v = Ok (MkSorted (del_at r (s_slice s)) (Some less), Z.of_nat r))).
@@ -473,23 +433,6 @@ Implicit Types (s : sorted T) (l : list T).
 
 Let W : StrictWeakOrder less := sto_swo less TO.
 
-Lemma partition_point_first l v r : Sorted (le_of less) l -> partition_point (not_less_than less v) l r ->
-  (forall k, k < r -> nth_error l k <> Some v) /\ (nth_error l r <> Some v -> ~ In v l).
-Proof.
-  intros Hs (Hr & Hlo & Hhi).
-  assert (Hfirst : forall k, k < r -> nth_error l k <> Some v).
-  { intros k Hk Hv. specialize (Hlo k v Hk Hv). unfold not_less_than in Hlo.
-    rewrite (sto_irrefl less TO) in Hlo. discriminate. }
-  split; [exact Hfirst|]. intros Hn Hin. destruct (In_nth_error _ _ Hin) as [k Hk].
-  destruct (Nat.lt_trichotomy k r) as [Hlt|[->|Hgt]]; [exact (Hfirst k Hlt Hk)|exact (Hn Hk)|].
-  destruct (nth_error l r) as [x|] eqn:Ex.
-  - specialize (Hhi r x (le_n _) Ex). unfold not_less_than in Hhi. apply negb_true_iff in Hhi.
-    assert (Hxv : le_of less x v).
-    { apply (StronglySorted_nth _ l (sorted_strongly less W l Hs) r k); auto. }
-    apply Hn. f_equal. apply (sto_total less TO); assumption.
-  - apply nth_error_None in Ex. assert (k < length l) by (apply nth_error_Some; congruence). lia.
-Qed.
-
 (* Add returns the position at which the new value now sits: the contents
    are the old ones with v inserted at that position, which is the lower bound of v *)
 Theorem Add_position s v : reachable zero eqb sort_Stable less s ->
@@ -517,7 +460,7 @@ Theorem Index_first s v : reachable zero eqb sort_Stable less s ->
 Proof.
   intros Hr. pose proof (reachable_inv zero eqb sort_Stable eqb_spec stable_ok less W s Hr) as Hinv.
   destruct (Remove_spec eqb eqb_spec less W s v Hinv) as (r & Hp & [(Hn & Ei & _)|(Hn & Ei & _)]);
-    destruct (partition_point_first _ v r (proj2 Hinv) Hp) as (Hfirst & Habs).
+    destruct (lower_bound_first less TO _ v r (proj2 Hinv) Hp) as (Hfirst & _ & Habs).
   - left. split; [apply Habs; exact Hn|exact Ei].
   - right. exists r. split; [split; assumption|exact Ei].
 Qed.
@@ -546,7 +489,7 @@ Theorem Remove_first s v : reachable zero eqb sort_Stable less s ->
 Proof.
   intros Hr. pose proof (reachable_inv zero eqb sort_Stable eqb_spec stable_ok less W s Hr) as Hinv.
   destruct (Remove_spec eqb eqb_spec less W s v Hinv) as (r & Hp & [(Hn & _ & Er)|(Hn & _ & Er)]);
-    destruct (partition_point_first _ v r (proj2 Hinv) Hp) as (Hfirst & Habs).
+    destruct (lower_bound_first less TO _ v r (proj2 Hinv) Hp) as (Hfirst & _ & Habs).
   - left. split; [apply Habs; exact Hn|exact Er].
   - right. exists r. eexists. split; [split; assumption|]. split; [exact Er|]. split; [reflexivity|].
     cbn. symmetry. apply Hinv.
@@ -601,14 +544,6 @@ Qed.
 End Bounds.
 
 (* ---- the orders of the correspondence harness satisfy the hypotheses ---- *)
-Lemma Z_ltb_sto : StrictTotalOrder Z.ltb.
-Proof.
-  split.
-  - intros a. apply Z.ltb_irrefl.
-  - intros a b c H1 H2. apply Z.ltb_lt in H1, H2. apply Z.ltb_lt. lia.
-  - intros a b H1 H2. apply Z.ltb_ge in H1, H2. lia.
-Qed.
-
 Lemma Z_key_swo : StrictWeakOrder (fun a b => Z.ltb (a / 4) (b / 4)).
 Proof.
   split.
